@@ -15,7 +15,7 @@ import (
 )
 
 func init() {
-	register(&Suite{Name: "faults", Gen: genFaults, Exec: execFaults})
+	register(&Suite{Name: "faults", Gen: genFaults, Exec: execFaults, Isolated: true})
 }
 
 // gwsGoroutines returns the stacks of goroutines that are currently inside gws code (excluding the
